@@ -54,6 +54,7 @@ const (
 	fmEmptyPasswordString    // known user, "Password": ""
 	fmDigestPrefix           // known user, the first half (or the first character) of the right digest
 	fmDigestOverlong         // known user, more hex digits than a SHA3-256 digest has (the right digest twice, a 512-bit digest, 65/66 digits)
+	fmWrongCodesShortPassword // known user, wrong event or sub event code, a password of 1..7 characters
 	fmKinds
 )
 
@@ -87,7 +88,7 @@ func (c06) Gen(seed uint64, run int, tier string) *Plan {
 			}
 			p.Actions = append(p.Actions, Action{Kind: "conn", A: slot, C: k, D: r.Intn(4) * r.Intn(60)})
 		case x < 50:
-			p.Actions = append(p.Actions, Action{Kind: "bcast", C: r.Intn(5), B: r.Intn(2)})
+			p.Actions = append(p.Actions, Action{Kind: "bcast", C: r.Intn(6), B: r.Intn(2)})
 		case x < 68:
 			p.Actions = append(p.Actions, Action{Kind: "follow", A: slot, C: r.Intn(5), B: r.Intn(2)})
 		case x < 74:
@@ -96,7 +97,7 @@ func (c06) Gen(seed uint64, run int, tier string) *Plan {
 			if cfg.Service != nil {
 				p.Actions = append(p.Actions, Action{Kind: "sconn", A: r.Intn(2), C: r.Intn(7)})
 			} else {
-				p.Actions = append(p.Actions, Action{Kind: "bcast", C: r.Intn(5), B: r.Intn(2)})
+				p.Actions = append(p.Actions, Action{Kind: "bcast", C: r.Intn(6), B: r.Intn(2)})
 			}
 		case x < 94:
 			if cfg.Service != nil {
@@ -155,6 +156,7 @@ type c06Sock struct {
 }
 
 type c06State struct {
+	svcListener string // listener type registered by a service (bcast kind 5)
 	w     *world.World
 	res   *Result
 	socks map[int]*c06Sock
@@ -243,6 +245,13 @@ func (st *c06State) firstMessage(kind int, user, password string) ([]byte, bool)
 	case fmDigestPrefix:
 		d := digest(password)
 		v = auth(map[string]any{"User": user, "Password": d[:[]int{1, 32, 63}[len(user)%3]]})
+	case fmWrongCodesShortPassword:
+		pw := []string{"a", "abc", "1234567", "€"}[(len(user)+len(password))%4]
+		if len(password)%2 == 0 {
+			v = world.MakePkg(world.EvInit, world.InitOAuth+1, user, map[string]any{"User": user, "Password": pw})
+		} else {
+			v = world.MakePkg(world.EvSession, world.InitOAuth, user, map[string]any{"User": user, "Password": pw})
+		}
 	case fmDigestOverlong:
 		d := digest(password)
 		v = auth(map[string]any{"User": user, "Password": []string{d + d, d + digest("x"), d + "0", d + "00", d + d + d + d}[(len(user)+len(password))%5]})
@@ -262,6 +271,17 @@ func (c06) Exec(p *Plan, dir string) *Result {
 		return res
 	}
 	st := &c06State{w: w, res: res, socks: map[int]*c06Sock{}, ssocks: map[int]*c06Sock{}, r: r}
+	if p.Cfg.Service != nil && p.Run%2 == 0 {
+		// a service that registered an agent type and a listener type of its own
+		sc := w.NewServiceClient("svc-setup")
+		if sc.Connect() && sc.Register(p.Cfg.Service.Password) {
+			sc.RegisterAgent(world.ServiceAgentSpec{Name: "TP", Magic: 0x51515151, Author: "verif", Description: "third-party agent", Formats: [][2]string{{"Executable", ".bin"}}, SupportedOS: []string{"linux"}})
+			w.Sim.Settle()
+			sc.AddListener("TPL", "TP", nil)
+			w.Sim.Settle()
+			st.svcListener = "TPL"
+		}
+	}
 	w.Sim.SetPolicy(p.Policy)
 	res.FP(p.Policy.Name, p.Cfg.Service != nil)
 	for i := 0; i < len(p.Actions); i++ {
@@ -487,6 +507,14 @@ func (st *c06State) inject(a Action) {
 			st.taskN++
 			wit.SendJSON(world.MakePkg(world.EvListener, world.ListenerAdd, []string{"", wit.Name}[a.B%2], map[string]any{"Name": fmt.Sprintf("px-%d", st.taskN), "Protocol": "Http", "HostBind": "10.0.0.5",
 				"Hosts": "10.0.0.5", "Headers": "", "Uris": "", "HostRotation": "round-robin", "PortBind": "9099", "PortConn": "", "HostHeader": "", "UserAgent": "", "Secure": "false", "Proxy Enabled": "true"}))
+			res.Probe("addressed-error-replies")
+		case 5:
+			// the same for a listener type a service registered, under a name that is taken: the
+			// refusal is addressed to the user named in the head - here nobody
+			if st.svcListener == "" {
+				return
+			}
+			wit.SendJSON(world.MakePkg(world.EvListener, world.ListenerAdd, []string{"", wit.Name}[a.B%2], map[string]any{"Name": w.Cfg.HTTP[0].Name, "Protocol": st.svcListener}))
 			res.Probe("addressed-error-replies")
 		}
 		res.Probe("broadcasts")
